@@ -473,4 +473,31 @@ ITEMS = location_types() + budget_types() + error_types() + [
          rewrites=[(r'Error::multiple_documents\("use read or read_with_options to obtain the iterator"\)', 'error_multiple_documents("use read or read_with_options to obtain the iterator")', None, 'R8')],
          ensures=[('C05:nothing_may_be_left_after_the_root_value', 'r is Ok ==> old(src).rest().len() == 0 || final(src).seen_doc_end')],
          canaries=['C05:nothing_may_be_left_after_the_root_value']),
+    # ---- document iterator over a reader (C11 / C10): ReadIter::next of read_with_options ----
+    dict(src='src/options.rs', path='enum DuplicateKeyPolicy', derive=COPY),
+    dict(src='src/de.rs', path='struct Cfg', derive='#[derive(Clone, Copy)]'),
+    dict(src='src/parse_scalars.rs', path='fn scalar_is_nullish', trusted=True, props=[],
+         ensures=[('proved_in_unit_typed', 'true')]),
+    dict(src='src/lib.rs', path='fn read_with_options/struct ReadIter',
+         rewrites=[(r"struct ReadIter<'a, T>", "struct ReadIter<'a>", 1, 'R9'), (r'_marker: std::marker::PhantomData<T>,', '', 1, 'R9'),
+                   (r'cfg: crate::de::Cfg,', 'cfg: Cfg,', 1, 'R6')]),
+    dict(src='src/lib.rs', path='fn read_with_options/impl Iterator for ReadIter/fn next', id='ReadIter::next', impl_header="impl<'a> ReadIter<'a>",
+         props=['C10', 'C11', 'C01'],
+         attrs='#[verifier::exec_allows_no_decreases_clause]',
+         rewrites=[(r'fn next\(&mut self\) -> Option<Self::Item>', 'fn next(&mut self) -> Option<Result<DocVal, Error>>', 1, 'R9'),
+                   (r'scalar_is_nullish\(value, style\)', 'scalar_is_nullish(value.as_ref(), style)', 1, 'R15'),
+                   (r'let res = crate::anchor_store::with_document_scope\(\|\| \{\s*T::deserialize\(crate::de::YamlDeserializer::new\(\s*&mut self\.src,\s*self\.cfg,\s*\)\)\s*\}\);',
+                    'let res = deserialize_document(&mut self.src, self.cfg);', 1, 'R8+R18'),
+                   (r'self\.src\.skip_to_next_document\(\)', 'iter_skip_to_next_document(&mut self.src)', None, 'R8'),
+                   # every discarded result of the event source is tracked: did it carry the deferred reader error?
+                   (r'let _ = self\.src\.next\(\);', 'let __d = self.src.next(); proof { dropped = dropped || (__d is Err && __d->Err_0 is IOError); }', None, 'R37'),
+                   (r'let _ = self\.src\.finish\(\);', 'let __d = self.src.finish(); proof { dropped = dropped || (__d is Err && __d->Err_0 is IOError); }', None, 'R37')],
+         proofs=[dict(at='start', ghost=True, text='let ghost mut dropped = false;'),
+                 dict(before='return None;', nth=2, label='C10:the_stream_never_ends_quietly_after_a_reader_error_was_discarded', text='assert(!dropped);'),
+                 dict(before='return Some(res);', label='C10:a_document_is_never_delivered_after_a_reader_error_was_discarded', text='assert(res is Ok ==> !dropped);')],
+         ensures=[('C11:a_finished_iterator_stays_finished', 'old(self).finished ==> r is None && *final(self) == *old(self)'),
+                  ('C11:the_iterator_ends_only_when_it_marks_itself_finished', 'r is None ==> final(self).finished')],
+         loops={1: dict(header=r'^loop$', invariant=[('tracking', '!self.finished && !old(self).finished'),
+                                                     ('C10:no_reader_error_has_been_discarded_so_far', '!dropped')])},
+         canaries=['C11:the_iterator_ends_only_when_it_marks_itself_finished']),
 ]
